@@ -157,6 +157,9 @@ def specDeadline (timeout : Int) (parent : Option Int) (now : Int) : Option Int 
 structure Src where
   reads : Nat        -- successful reads of one byte each
   fails : Bool       -- then an error instead of EOF
+  /-- the error is one that `io.ReadFull`'s caller takes for a short file (`io.ErrUnexpectedEOF` coming
+  from the source itself): the sniff lets it pass, the copy that follows meets it again (sticky) -/
+  soft : Bool := false
 deriving DecidableEq, Repr
 
 inductive Payload | none | buffered | produceErr | stream (s : Src)
@@ -231,11 +234,15 @@ through io.Copy); a source that fails on its very first read fails before the he
 
 `full = true` (`io.ReadFull(fi, buf)`, window `w`): the sniff reads until the window is full or the
 source ends. A source that fails within the window fails inside ReadFull, BEFORE the part header is
-written. Otherwise: one write for the header, one write for the whole sniffed prefix (if any), then
+written — unless its error is `io.ErrUnexpectedEOF` itself (`soft`), which the code takes for "shorter
+than the window": then the header and the sniffed prefix are written and the copy through the
+MultiReader meets the (sticky) error of the source again. Otherwise: one write for the header, one write for the whole sniffed prefix (if any), then
 one write per further byte, then EOF or the failing read. -/
 def fileScriptW (full : Bool) (w : Nat) (s : Src) : List Act :=
   if full then
-    if s.reads < w then (if s.fails then [.fail] else .w :: (if s.reads == 0 then [] else [.w]))
+    if s.reads < w then
+      (if s.fails && !s.soft then [.fail]
+       else .w :: ((if s.reads == 0 then [] else [.w]) ++ (if s.fails then [.fail] else [])))
     else .w :: .w :: (List.replicate (s.reads - w) .w ++ (if s.fails then [.fail] else []))
   else
     if s.fails && s.reads == 0 then [.fail]
@@ -638,7 +645,7 @@ def bit (b : Bool) : String := if b then "1" else "0"
 
 def decSrc (s : String) : Option Src :=
   match s.splitOn ":" with
-  | [a, b] => a.toNat?.map (fun n => ⟨n, b == "1"⟩)
+  | [a, b] => a.toNat?.map (fun n => { reads := n, fails := b == "1" || b == "2", soft := b == "2" })
   | _ => none
 
 def dropPrefix (s : String) (n : Nat) : String := String.ofList (s.toList.drop n)
